@@ -82,6 +82,25 @@ Fixpoint accepted_prefix (last : option key) (ops : list op) : list op * res uni
     end
   end.
 
+(* the last accepted key after a sequence of calls: only accepted items advance it *)
+Fixpoint spec_last (last : option key) (ops : list op) : option key :=
+  match ops with
+  | [] => last
+  | o :: r => spec_last (fst (spec_call last o)) r
+  end.
+(* several extend batches on one builder (C06): per batch the accepted prefix, judged from the
+   last accepted key so far, and that batch's result; the items after a rejected one are skipped,
+   the next batch is judged from the last ACCEPTED key.  Result: the accepted items overall, one
+   result per batch, the last accepted key. *)
+Fixpoint spec_batches (last : option key) (batches : list (list op)) : list op * list (res unit) * option key :=
+  match batches with
+  | [] => ([], [], last)
+  | ops :: r =>
+    let '(p, x) := accepted_prefix last ops in
+    let '(acc, xs, l') := spec_batches (spec_last last p) r in
+    (p ++ acc, x :: xs, l')
+  end.
+
 (* range / search / get_key on the abstract map *)
 Definition in_bounds (mn mx : bound) (k : key) : bool :=
   (match mn with Included v => key_leb v k | Excluded v => key_ltb v k | Unbounded => true end) &&
